@@ -48,11 +48,13 @@ CLAIMS = {
           "error, nothing forwarded, table untouched; conn_private; destroyed_exactly_once (in the step of any request a fid number is "
           "reported destroyed at most once, it is reported when the request invalidates a valid fid, and whatever is reported is invalid "
           "afterwards — in the same step as the reply); user_binding_stable / user_binding_history (a fid that stays valid stays bound "
-          "to the same user across any request and any history) and new_fid_bound_by_request (a fid that becomes valid was bound by a "
+          "to the same user across any request and any history), valid_fid_found_under_concurrency / table_entry_is_its_number (over G9.FidLife, "
+          "every interleaving: a valid fid is the one the table holds under its number) and new_fid_bound_by_request (a fid that becomes valid was bound by a "
           "Tauth/Tattach naming it, to the user that request names, or by a Twalk to it, to the user of the source fid). Correspondence: ~2.5k (quick) random histories on a real Conn with a "
           "scripted implementation compare reply, calls, FidDestroy log and the whole fid table after every request; an independent Go "
           "oracle of the property runs on the same observations.",
-  "note": TB + "Sequential histories only (each request answered before the next is sent).",
+  "note": TB + "The refinement to the protocol's valid-fid set is for sequential histories (each request answered before the next is sent); "
+          "under concurrency the fid table's own invariants are proved on G9.FidLife and its log is replayed by the acceptor.",
  },
  "C05": {
   "technique": "Lean 4 proof (guard theorems for every rule of the statement, for all states, arguments and implementations; no-wrap count rule over all 32-bit counts) + differential correspondence",
@@ -178,12 +180,16 @@ CLAIMS = {
           "the chain (K-6) and is left to the correspondence. Real-time promptness is observed, not proved.",
  },
  "C11": {
-  "technique": "Lean 4 proof (after close nothing blocks, nothing is accepted or written, close happens once) + acceptor correspondence + disconnect oracle (ConnClosed, FidDestroy, goroutine census, bystander)",
+  "technique": "Lean 4 proof (after close nothing blocks, nothing is accepted or written, close happens once; every fid object destroyed exactly once under every interleaving) + acceptor correspondence + disconnect oracle (ConnClosed, FidDestroy, goroutine census, bystander)",
   "text": "closed_stays_closed, respond_never_stuck_after_close, reply_after_close_dropped, worker_never_stuck_after_close over the event "
-          "model. Correspondence: disconnects with fids in every state and 0..4 requests executing; every log accepted by the model; "
+          "model. Over G9.FidLife (every interleaving of the regions of FidNew/FidGet/retain/IncRef/DecRef/destroy/Conn.close): "
+          "fid_destroyed_at_most_once, disconnect_destroys_every_fid (once Conn.close and the executing requests have run to their end, "
+          "every fid object — valid, being created, or created afterwards — has been reported destroyed exactly once), "
+          "no_destroy_while_being_created, valid_fid_alive_while_open, refcount_is_owners. Correspondence: disconnects with fids in every state and 0..4 requests executing; every log accepted by the model; "
           "oracle: ConnClosed once, every valid fid destroyed exactly once, goroutine census back to baseline, bystander untouched.",
-  "note": TB + "ConnClosed/FidDestroy accounting and goroutine/descriptor leaks are observed on the implementation, not proved. Files of a "
-          "Topen/Tcreate still executing at the disconnect (Ufs) are not yet covered (K-4, DESIGN).",
+  "note": TB + "ConnClosed accounting and goroutine/descriptor leaks are observed on the implementation, not proved. Files of a "
+          "Topen/Tcreate still executing at the disconnect (Ufs) are not yet covered (K-4, DESIGN). Two racing releases of the table's "
+          "reference to one fid (two concurrent Tclunk of the same fid) are outside the fid-table model.",
  },
  "C19": {
   "technique": "Lean 4 proof (lock-set soundness for all executions of an abstract mutex model; lock policy decided by kernel computation over access facts regenerated from the source) + race-detector correspondence",
